@@ -63,7 +63,8 @@ func designated(fault string) func(name string) bool {
 	case "get-omits-ipv6":
 		return has("Get for installed IPv6")
 	case "ignore-flush":
-		return has("Flush of all entries", "Flush from client overriding", "Flush to specific network instance", "Flush all network instances", "Flush non-default network instances")
+		// ("Flush non-default network instances preserves the default" flushes an empty instance: ignoring that is invisible)
+		return has("Flush of all entries", "Flush from client overriding", "Flush to specific network instance", "Flush all network instances")
 	case "misreport-election-id":
 		return has("Modify RPC Connection with Election ID", "Election - Decrementing election ID", "Election - Incrementing election ID", "Election - Lower election ID", "Election - Matching parameters", "Election - Sending same election ID")
 	case "accept-repeated-params":
@@ -75,7 +76,7 @@ func designated(fault string) func(name string) bool {
 	case "fail-implicit-replace":
 		return has("Implicit replace")
 	case "program-non-primary":
-		return has("Election - Lower election ID", "Election - Unannounced master", "Election - Incrementing election ID", "Election - Decrementing election ID", "Flush from non-elected")
+		return has("Election - Lower election ID", "Election - Unannounced master", "Election - Incrementing election ID", "Election - Decrementing election ID")
 	case "allow-delete-referenced":
 		return has("that is referenced - failure")
 	case "ack-invalid-entries":
@@ -410,7 +411,7 @@ func (f *faultyModify) Send(r *spb.ModifyResponse) error {
 		if r.ElectionId != nil {
 			simrt.Active().Fault("srv-fault:" + f.fault)
 			c := proto.Clone(r).(*spb.ModifyResponse)
-			c.ElectionId.Low ^= 1 // off by one
+			c.ElectionId.High ^= 0x5a5a0000 // an id nobody ever announced (an off-by-one id can equal the id a later check of the same test waits for)
 			r = c
 		}
 	case "fail-idempotent-delete", "fail-implicit-replace":
